@@ -32,7 +32,8 @@ class CSVSearchRecorder(SearchRecorder):
                 "Phenotype": lambda t, i, _: i.get_phenotype(),
             }
             for comp in range(problem.number_of_objectives()):
-                self.fields[f"Fitness{comp}"] = lambda t, i, p: i.get_fitness(p).fitness_components[comp]
+                # Bind comp per lambda: a closure over the loop variable would make every column show the last component.
+                self.fields[f"Fitness{comp}"] = lambda t, i, p, comp=comp: i.get_fitness(p).fitness_components[comp]
         if extra_fields is not None:
             for name in extra_fields:
                 self.fields[name] = extra_fields[name]
